@@ -2,8 +2,10 @@ package rules
 
 import (
 	"fmt"
+	"go/token"
 	"go/types"
 	"os"
+	"reflect"
 	"sort"
 	"strings"
 
@@ -16,9 +18,81 @@ func init() {
 	register(&Pack{Property: "C13", Title: "Malformed input is rejected, never crashes or hangs", NeedsCG: true, Run: runC13})
 }
 
-// c13Reasoned: sites that no dominating check guards, each with the reason it cannot fail
-// (key = PanicSite.Key()).
-var c13Reasoned = map[string]string{}
+// kReasoned: sites that no dominating check guards, each with the reason it cannot fail on any
+// input / response (key = PanicSite.Key(); one named construct per entry). Shared by C13 and C19:
+// a site is looked up only when it is reachable from that property's entry points.
+var kReasoned = map[string]string{
+	// ---- plugin registry: shapes fixed at registration (O18.1 checks every registration call site)
+	"index:(*core/plugin.factoryConstructor).NewPlugin:out[0]":                                                                                             "reflect.Value.Call of the factory returned by a registered factory constructor: O18.1 proves every registered factory has 1 or 2 results",
+	"index:(*core/plugin.factoryConstructor).callNewFactory:factoryAndMaybeErr[0]":                                                                         "reflect.Value.Call of a registered factory constructor: O18.1 proves 1 or 2 results",
+	"index:(*core/plugin.pluginConstructor).NewPlugin:out[0]":                                                                                              "reflect.Value.Call of a registered plugin constructor: O18.1 proves 1 or 2 results",
+	"index:(core/plugin.defaultConfigContainer).new:e.newValue.Call(nil)[0]":                                                                               "newValue is func() <config> (reflect.FuncOf with one result, or a default-config func whose type O18.1 checks): Call returns exactly one value",
+	"index:core/plugin.convertFactoryOutParams:out[0]":                                                                                                     "out is the result of calling a registered constructor/factory: at least one result (O18.1)",
+	"index:core/plugin.convertFactoryOutParams:out[1]":                                                                                                     "dominated by numOut < len(out) with numOut in {1,2} (the switch above panics otherwise): len(out) >= 2",
+	"abort:(*core/plugin.pluginConstructor).NewFactory$1:panic(err)":                                                                                       "documented (C18): a config error panics only when the requested factory type has no error result; every factory field of pandora's config structs has one (func() (core.Gun, error), func() (core.Schedule, error))",
+	"abort:(*core/plugin.pluginConstructor).NewFactory$1:panic(fmt.Sprintf(\" out params num expeced to be 1 or 2, but have: %v\", factoryType.NumOut()))": "unreachable arm: isFactoryType admits only 1 or 2 results",
+	"abort:(core/plugin.defaultConfigContainer).new:panic(\"try to create config when not required\")":                                                     "programming-error assertion: new() is called only under configRequired() (O18.3 checks the call edge)",
+	"abort:(core/plugin.defaultConfigContainer).new:panic(\"unexpected type \" + conf.String())":                                                           "unreachable arm: newDefaultConfigContainer admits only struct / *struct configs at registration",
+	"abort:core/plugin.convertFactoryOutParams:panic(fmt.Sprintf(\"unexpeced out params num: %v; 1 or 2 expected\", numOut))":                              "unreachable arm: numOut is NumOut() of a type isFactoryType accepted",
+	"abort:core/plugin.convertFactoryOutParams:panic(out[1].Interface())":                                                                                  "documented (C18, O18.4): a constructor error is re-raised as panic only when the requested factory type cannot carry it",
+	"abort:core/plugin.expect:panic(fmt.Sprintf(\"expectation failed: \" + msg, args...))":                                                                 "registration-time programming errors (plugin.Register is documented to panic); on the decode path expect() is reached only with conditions O18.1 establishes for every registration",
+	// ---- composite schedule: at least one part always remains
+	"index:(*core/schedule.compositeSchedule).Start:s.scheds[0]":                                "invariant len(scheds) >= 1: NewComposite builds a compositeSchedule only from >= 2 parts and startNext (the only shrinker, O2.2) is called only where len(scheds) > 1 (O2.3, O2.9)",
+	"index:(*core/schedule.compositeSchedule).Next:s.scheds[0]":                                 "same invariant len(scheds) >= 1",
+	"index:(*core/schedule.compositeSchedule).Left:s.scheds[0]":                                 "same invariant len(scheds) >= 1",
+	"index:(*core/schedule.compositeSchedule).Left:s.leftAfter[0]":                              "leftAfter is created with len(scheds) elements and shifted together with scheds (O2.5 shifts-both-slices)",
+	"index:(*core/schedule.compositeSchedule).startNext:s.scheds[0]":                            "after the shift at least one part remains: callers run only under len(scheds) > 1",
+	"slice:(*core/schedule.compositeSchedule).startNext:s.scheds[1:]":                           "len(scheds) >= 1 always; [1:] of a non-empty slice",
+	"slice:(*core/schedule.compositeSchedule).startNext:s.leftAfter[1:]":                        "same length as scheds",
+	"abort:(*core/schedule.compositeSchedule).Left:panic(\"current schedule is not finished\")": "internal consistency assertion: Left()==0 of the current part while its Next() still yields a token contradicts the Schedule contract (C02); not input dependent",
+	"abort:(*core/schedule.StartSync).MarkStarted:panic(\"schedule is already started\")":       "documented contract of core.Schedule.Start (second start panics, O2.6); the engine starts each schedule once",
+	// ---- CLI: documented exits on unreadable / invalid configuration (an error message and exit status, not a crash)
+	"abort:cli.readConfig:log.Fatal(\"Cannot read from standard input\", zap.Error(err))":                                            "documented exit: configuration unreadable",
+	"abort:cli.readConfig:log.Fatal(\"Config decode failed\", zap.Error(err))":                                                       "documented exit: invalid configuration is rejected with its error",
+	"abort:cli.readConfig:log.Fatal(\"Config decode failed: pool should be a map\", zap.Int(\"pool\", i), zap.Any(\"value\", pool))": "documented exit: invalid configuration is rejected with its error",
+	"abort:cli.readConfig:log.Fatal(\"Config decode failed: pools should be a list\", zap.Any(\"pools\", v.Get(\"pools\")))":         "documented exit: invalid configuration is rejected with its error",
+	"abort:cli.readConfig:log.Fatal(\"Config parsing failed\", zap.Error(err))":                                                      "documented exit: configuration unparsable",
+	"abort:cli.readConfig:log.Fatal(\"Config read failed\", zap.Error(err))":                                                         "documented exit: configuration unreadable",
+	"abort:cli.readConfig:panic(err)": "zap.NewDevelopment() failing to build the bootstrap logger: not input dependent",
+	"abort:cli.readConfig:zap.L().Fatal(\"Too many command line arguments\", zap.Strings(\"args\", args))": "documented exit: usage error",
+	// ---- HTTP gun construction (config time)
+	"abort:components/guns/http.NewTransport:zap.L().Panic(\"HTTP transport configure fail\", zap.Error(err))":        "target without port: GunConfig.Target carries validate:\"endpoint,required\" (host:port), so SplitHostPort succeeds for every accepted config (C17 O17.4 keeps the tag)",
+	"abort:components/guns/http.NewHTTP2Transport:zap.L().Panic(\"HTTP/2 transport configure fail\", zap.Error(err))": "http2.ConfigureTransport fails only on a transport already configured for HTTP/2; NewTransport returns a fresh one",
+	"abort:components/guns/http.newConnectDialFunc$1:panic(\"unsupported network \" + network)":                       "net/http dials its transports with network \"tcp\" only; not input dependent",
+	"assert:components/guns/http.HTTP1ClientConstructor:@components/guns/http/http.go:28:83":                          "go/ssa's nil check for the method value NewDialer(..).DialContext: NewDialer returns a non-nil Dialer on both paths",
+	"assert:components/guns/http.HTTP2ClientConstructor:@components/guns/http/http.go:45:88":                          "same nil check of NewDialer(..).DialContext",
+	"assert:components/providers/http.NewProvider:@components/providers/http/provider.go:49:19":                       "go/ssa's nil check for the method value file.Close of a file that was just opened without error",
+	"assert:(components/guns/http.redirectClient).CloseIdleConnections:c.Transport.(*http.Transport)":                 "redirectClient is built only by NewRedirectingClient with &http.Client{Transport: tr}, tr a *http.Transport",
+	"assert:lib/netutil.LookupReachable:conn.RemoteAddr().(*net.TCPAddr)":                                             "the connection was dialed with the constant network \"tcp\"",
+	"assert:lib/netutil.NewDNSCachingDialer$1:conn.RemoteAddr().(*net.TCPAddr)":                                       "used by HTTP transports and WarmDNSCache, which dial \"tcp\"; the connect gun panics earlier on any other network",
+	// ---- config decoding helpers
+	"assert:core/config.unmarhsallText:data.(string)":                            "only called from TextUnmarshallerHook after f.Kind() == reflect.String",
+	"assert:core/config.unmarhsallText:v.Interface().(encoding.TextUnmarshaler)": "only called from TextUnmarshallerHook under t.Implements / PtrTo(t).Implements(TextUnmarshaler) for the value it constructs",
+	// ---- ammo / scenario handling
+	"index:components/providers/http/util.EnrichRequestWithHeaders:values[0]":               "header maps reaching it are built with http.Header.Set/Add only (DecodeHTTPConfigHeaders, the decoders' commonHeader), which never leave an empty value list",
+	"assert:(*components/providers/grpc/grpcjson.Provider).start:p.Pool.Get().(*ammo.Ammo)": "the pool's New returns &Ammo{} and the only Put is Release(a) with the ammo the engine acquired from this provider (*Ammo); not input dependent",
+	"div:components/providers/scenario/config.SpreadNames:sc.Weight / div":                  "div is the GCD of the weights, each non-zero (0 is replaced by 1) and non-negative (validate min=0, checked below): GCD of positive numbers is positive",
+	"size:components/providers/scenario/http.decodeAmmo:make([]*gun.Scenario, 0, size)":     "size is the sum of weight/gcd over scenarios with weights validated non-negative (ScenarioConfig.Weight validate min=0 under AmmoConfig.Scenarios dive, checked below)",
+	"size:components/providers/scenario/grpc.decodeAmmo:make([]*gun.Scenario, 0, size)":     "same: weights validated non-negative",
+	"index:lib/mp.extractFromSlice:v[index]":                                                "index is calcIndex(.., valueLen, ..)'s result on its nil-error edge, valueLen the length of the very value indexed; calcIndex returns only values in [0, length) (checked below, O13.1 calcIndex-range)",
+	"slice:lib/mp.GetMapValue:segment[:openBraceIdx]":                                       "dominated by strings.Contains(segment, \"[\"): openBraceIdx = strings.Index(segment, \"[\") >= 0 and <= len",
+	"slice:lib/mp.GetMapValue:segment[openBraceIdx + 1:len(segment) - 1]":                   "dominated by Contains(segment, \"[\") && HasSuffix(segment, \"]\"): the first '[' is not the last byte, so openBraceIdx+1 <= len-1",
+	"rand:(*lib/mp.NextIterator).Rand:n.rnd.Intn(length)":                                   "the only caller is calcIndex, after it rejected length <= 0 (checked below)",
+	"rand:components/providers/scenario/templater.randInt:rand.Int63n(t - f)":               "the three normalisations before the call (swap when t < f, default range when both are 0, t = f + 10 when equal) leave t > f",
+	"rand:lib/str.RandStringRunes:randSource.Intn(len(letterRunes))":                        "letterRunes is []rune(s) with s replaced by the non-empty default alphabet when empty",
+	"index:lib/zaputil.extractFieldsStacksToBuff:fields[i]":                                 "i ranges over fields; the copy that replaces fields inside the loop is made with the same length",
+	"abort:(lib/zaputil.zapBufferFmtState).Width:panic(\"should not be called\")":           "fmt.State stub handed to errors.StackTrace.Format, which does not query width",
+	"abort:(lib/zaputil.zapBufferFmtState).Precision:panic(\"should not be called\")":       "fmt.State stub handed to errors.StackTrace.Format, which does not query precision",
+	// ---- shooting path (C19)
+	"assert:(*components/guns/grpc.Gun).Shoot:am.(*ammo.Ammo)":                                            "documented contract of core.Gun.Shoot (\"unsupported Ammo type\" panics): the ammo comes from the pool's own provider, never from the target",
+	"assert:(*components/guns/grpc/scenario.Gun).Shoot:am.(*Scenario)":                                    "same documented contract",
+	"assert:(*components/guns/http.gunWrapper).Shoot:ammo.(Ammo)":                                         "same documented contract",
+	"assert:(*components/guns/http_scenario.gunWrapper).Shoot:ammo.(*Scenario)":                           "same documented contract",
+	"assert:(*core/aggregator/netsample.aggregatorWrapper).Report:s.(*Sample)":                            "netsample aggregators are handed to netsample guns only; every Report call of the guns passes a *netsample.Sample (checked below)",
+	"abort:(*components/guns/http.BaseGun).Shoot:zap.L().Panic(\"must bind before shoot\")":               "programming-error assertion: the engine binds every gun before its first shot (newInstance); not response dependent",
+	"abort:(*components/guns/http_scenario.ScenarioGun).Shoot:zap.L().Panic(\"must bind before shoot\")":  "same assertion",
+	"abort:(*components/guns/http.panicOnHTTP1Client).Do:zap.L().Panic(notHTTP2PanicMsg, zap.Error(err))": "documented fatal condition of the http2 gun: the target does not speak HTTP/2 (its guard is checked below, O19.6)",
+}
 
 // inputRoots returns the entry points through which ammo, scenario and configuration input enters.
 func inputRoots(c *Ctx) []*ssa.Function {
@@ -181,14 +255,15 @@ func runC13(c *Ctx) {
 	c.Rule("O13.4", "make sizes and rand.Intn-family arguments that derive from parsed text are dominated by a lower and an upper bound (sizes) / > 0 (rand), or listed with a reason")
 	c.Rule("O13.5", "explicit panic / zap Panic/Fatal / log.Fatal / os.Exit sites reachable from the input entry points are the listed ones (registration-time programming errors, the CLI's documented exits)")
 	roots := inputRoots(c)
-	runInventory(c, "O13", roots, c13Reasoned, map[string]string{"index": "O13.1", "slice": "O13.1", "assert": "O13.2", "div": "O13.3", "size": "O13.4", "rand": "O13.4", "abort": "O13.5"})
+	runInventory(c, "O13", roots, kReasoned, map[string]string{"index": "O13.1", "slice": "O13.1", "assert": "O13.2", "div": "O13.3", "size": "O13.4", "rand": "O13.4", "abort": "O13.5"})
+	c.Rule("O13.6", "decode errors propagate: every call returning an error inside the ammo decoders is tested and its error returned (wrapped or not) on the non-nil edge")
+	c.Rule("O13.7", "end of input is told apart from a truncated entry: errors.Is(err, io.EOF) is never applied to the result of a pandora helper that wraps read errors")
+	c13Support(c)
 }
 
 func init() {
 	register(&Pack{Property: "C19", Title: "No response can abort the run", NeedsCG: true, Run: runC19})
 }
-
-var c19Reasoned = map[string]string{}
 
 func runC19(c *Ctx) {
 	c.Rule("O19.1", "index / slice sites (compiler bounds-check report) reachable from any Gun.Shoot are guarded or reasoned")
@@ -197,5 +272,620 @@ func runC19(c *Ctx) {
 	c.Rule("O19.4", "tainted sizes / rand arguments reachable from any Gun.Shoot are bounded")
 	c.Rule("O19.6", "explicit aborts reachable from any Gun.Shoot are the documented ones")
 	roots := shootRoots(c)
-	runInventory(c, "O19", roots, c19Reasoned, map[string]string{"index": "O19.1", "slice": "O19.1", "assert": "O19.2", "div": "O19.3", "size": "O19.4", "rand": "O19.4", "abort": "O19.6"})
+	runInventory(c, "O19", roots, kReasoned, map[string]string{"index": "O19.1", "slice": "O19.1", "assert": "O19.2", "div": "O19.3", "size": "O19.4", "rand": "O19.4", "abort": "O19.6"})
+	c.Rule("O19.7", "failures are recorded and Shoot returns: no panic / Fatal / Exit site lies on any path after the exchange with the target returned")
+	c19Support(c)
+}
+
+// ---------- supporting obligations of reasoned entries ----------
+
+// c13CalcIndexRange decides that calcIndex returns only values in [0, length) with a nil error.
+func c13CalcIndexRange(c *Ctx, id string) {
+	P := c.P
+	ci := P.Func("lib/mp", "", "calcIndex")
+	efs := P.Func("lib/mp", "", "extractFromSlice")
+	if ci == nil || efs == nil || len(ci.Params) != 4 {
+		c.Anchor(id, "lib/mp.calcIndex(indexStr, segment, length, iter) / extractFromSlice")
+		return
+	}
+	length := ssa.Value(ci.Params[2])
+	key := fk(ci)
+	// length > 0 on every nil-error return: dominated by the false edge of length <= 0
+	n := 0
+	for _, b := range ci.Blocks {
+		r, ok := b.Instrs[len(b.Instrs)-1].(*ssa.Return)
+		if !ok || len(r.Results) != 2 || !IsNilConst(r.Results[1]) {
+			continue
+		}
+		n++
+		facts := CmpFactsAt(r)
+		posLen := false
+		for _, f := range facts {
+			for _, g := range []Fact{f, {Op: flipTok(f.Op), X: f.Y, Y: f.X}} {
+				if g.X == length && g.Y != nil {
+					if k, isK := ConstInt(g.Y); isK && ((g.Op == token.GTR && k >= 0) || (g.Op == token.GEQ && k >= 1)) {
+						posLen = true
+					}
+				}
+			}
+		}
+		v := r.Results[0]
+		why := ""
+		inRange := func(v ssa.Value, facts []Fact, depth int) bool { return false }
+		inRange = func(v ssa.Value, facts []Fact, depth int) bool {
+			// length - 1
+			if bo, ok := v.(*ssa.BinOp); ok && bo.Op == token.SUB && bo.X == length {
+				if one, isOne := ConstInt(bo.Y); isOne && one == 1 {
+					return true
+				}
+			}
+			// x % length with x >= 0, or with the remainder itself known >= 0 on this edge (|x % length| < length)
+			if bo, ok := v.(*ssa.BinOp); ok && bo.Op == token.REM && bo.Y == length {
+				if nonNegFacts(bo.X, facts) || nextResult(bo.X) || nonNegFacts(v, facts) {
+					return true
+				}
+			}
+			// (x % length) + length on the edge where the remainder is negative
+			if bo, ok := v.(*ssa.BinOp); ok && bo.Op == token.ADD && bo.Y == length {
+				if rem, ok := bo.X.(*ssa.BinOp); ok && rem.Op == token.REM && rem.Y == length {
+					for _, f := range facts {
+						f = f.Canon()
+						if f.Op == token.LSS && f.X == ssa.Value(rem) {
+							if k, isK := ConstInt(f.Y); isK && k == 0 {
+								return true
+							}
+						}
+					}
+				}
+			}
+			// iter.Rand(length): Iterator contract [0, length)
+			if cl, _ := CallOfValue(v); cl != nil && cl.Call.IsInvoke() && cl.Call.Method.Name() == "Rand" && cl.Call.Args[0] == length {
+				return true
+			}
+			// a value with 0 <= v < length facts
+			lo, hi := nonNegFacts(v, facts) || nextResult(v), false
+			for _, f := range facts {
+				f = f.Canon()
+				if f.Op == token.LSS && f.X == v && f.Y == length {
+					hi = true
+				}
+			}
+			if lo && hi {
+				return true
+			}
+			if phi, ok := v.(*ssa.Phi); ok && depth < 4 {
+				for i, e := range phi.Edges {
+					ef := append(DomFacts(phi.Block().Preds[i]), factsOfEdge(phi.Block().Preds[i], phi.Block())...)
+					if !inRange(e, ef, depth+1) {
+						return false
+					}
+				}
+				return true
+			}
+			return false
+		}
+		okV := inRange(v, facts, 0)
+		if !okV {
+			why = "returned value is not one of: 0 <= v < length, length-1, a non-negative value % length, (v % length) + length on v % length < 0, iter.Rand(length)"
+		}
+		c.Check(posLen && okV, id, fmt.Sprintf("%s:calcIndex-range#%d", key, n), r.Pos(), fmt.Sprintf("length > 0 on this return: %v; %s", posLen, why))
+	}
+	c.Floor(id, "successful returns of calcIndex", n, 4)
+	// extractFromSlice indexes the value whose reflect length it passed, with calcIndex's result on the nil edge
+	var call *ssa.Call
+	EachInstr(efs, func(in ssa.Instruction) {
+		if cl, ok := in.(*ssa.Call); ok && cl.Call.StaticCallee() == ci {
+			call = cl
+		}
+	})
+	ok := false
+	if call != nil {
+		// length argument: reflect.ValueOf(curValue).Len()
+		lenOK := DerivesOnly(call.Call.Args[2], false, func(v ssa.Value) bool {
+			if k, isK := ConstInt(v); isK && k == 0 {
+				return true // "not found yet": rejected before calcIndex is reached, and by calcIndex itself
+			}
+			cl, _ := CallOfValue(v)
+			if cl == nil || !MatchCC(&cl.Call, Spec{"reflect", "Value", "Len"}) {
+				return false
+			}
+			vo, _ := CallOfValue(cl.Call.Args[0])
+			return vo != nil && MatchCC(&vo.Call, Spec{"reflect", "", "ValueOf"}) && Strip(vo.Call.Args[0]) == ssa.Value(efs.Params[0])
+		})
+		idxOK := true
+		nIdx := 0
+		EachInstr(efs, func(in ssa.Instruction) {
+			ia, isIA := in.(*ssa.IndexAddr)
+			if !isIA {
+				return
+			}
+			if _, isK := ConstInt(ia.Index); isK {
+				return // composite literal of the accepted types
+			}
+			// only indexings of the typed view of curValue
+			if !DerivesAny(ia.X, false, func(v ssa.Value) bool {
+				ta, isTA := v.(*ssa.TypeAssert)
+				if isTA {
+					return ta.X == ssa.Value(efs.Params[0])
+				}
+				if ex, isEx := v.(*ssa.Extract); isEx {
+					if ta, isTA := ex.Tuple.(*ssa.TypeAssert); isTA {
+						return ta.X == ssa.Value(efs.Params[0])
+					}
+				}
+				return false
+			}) {
+				return
+			}
+			nIdx++
+			if !DerivesOnly(ia.Index, false, IsResultOf(call, 0)) {
+				idxOK = false
+			}
+			e, _ := errResult(call)
+			nilEdge := false
+			for _, f := range CmpFactsAt(ia) {
+				if f.Op == token.EQL && IsNilConst(f.Y) && e != nil && DerivesAny(f.X, false, func(v ssa.Value) bool { return v == e }) {
+					nilEdge = true
+				}
+			}
+			if !nilEdge {
+				idxOK = false
+			}
+		})
+		ok = lenOK && idxOK && nIdx >= 7
+		if !ok {
+			c.Note("extractFromSlice support: lenOK=%v idxOK=%v nIdx=%d", lenOK, idxOK, nIdx)
+		}
+	}
+	c.Check(ok, id, fk(efs)+":indexes-the-measured-value-with-calcIndex-result", efs.Pos(), "every v[index] uses calcIndex's result on its nil-error edge, and the length passed is reflect.ValueOf(curValue).Len() of the same value")
+}
+
+func nonNegFacts(v ssa.Value, facts []Fact) bool {
+	if k, isK := ConstInt(v); isK {
+		return k >= 0
+	}
+	for _, f := range facts {
+		for _, g := range []Fact{f, {Op: flipTok(f.Op), X: f.Y, Y: f.X}} {
+			if g.X == v && g.Y != nil {
+				if k, isK := ConstInt(g.Y); isK && ((g.Op == token.GEQ && k >= 0) || (g.Op == token.GTR && k >= -1)) {
+					return true
+				}
+			}
+		}
+	}
+	return false
+}
+
+// nextResult: v is the result of Iterator.Next (0, 1, 2, ... by O15.5).
+func nextResult(v ssa.Value) bool {
+	cl, _ := CallOfValue(v)
+	return cl != nil && cl.Call.IsInvoke() && cl.Call.Method.Name() == "Next"
+}
+
+func c13Support(c *Ctx) {
+	P := c.P
+	c13CalcIndexRange(c, "O13.1")
+	// every Iterator.Rand call site passes a length proven > 0
+	n := 0
+	for _, fn := range P.ProdFuncs() {
+		EachInstr(fn, func(in ssa.Instruction) {
+			cl, ok := in.(*ssa.Call)
+			if !ok || !cl.Call.IsInvoke() || cl.Call.Method.Name() != "Rand" {
+				return
+			}
+			if p, nm := NamedOf(cl.Call.Value.Type()); p != Mod+"/lib/mp" || nm != "Iterator" {
+				return
+			}
+			n++
+			arg := cl.Call.Args[0]
+			pos := false
+			for _, f := range CmpFactsAt(cl) {
+				for _, g := range []Fact{f, {Op: flipTok(f.Op), X: f.Y, Y: f.X}} {
+					if g.X == arg && g.Y != nil {
+						if k, isK := ConstInt(g.Y); isK && ((g.Op == token.GTR && k >= 0) || (g.Op == token.GEQ && k >= 1)) {
+							pos = true
+						}
+					}
+				}
+			}
+			c.Check(pos, "O13.4", fk(fn)+":Rand-argument-positive", cl.Pos(), "Iterator.Rand(length) is called only where length > 0 was established (rand.Intn panics otherwise)")
+		})
+	}
+	c.Floor("O13.4", "Iterator.Rand call sites", n, 1)
+	// weights validated
+	pk := P.Pkg("components/providers/scenario/config")
+	okW, okDive := false, false
+	if pk != nil {
+		for _, tname := range []string{"ScenarioConfig", "AmmoConfig"} {
+			tn, ok := pk.Types.Scope().Lookup(tname).(*types.TypeName)
+			if !ok {
+				continue
+			}
+			st := tn.Type().Underlying().(*types.Struct)
+			for i := 0; i < st.NumFields(); i++ {
+				tag, _ := reflect.StructTag(st.Tag(i)).Lookup("validate")
+				if tname == "ScenarioConfig" && st.Field(i).Name() == "Weight" {
+					for _, r := range parseRules(tag) {
+						if ruleImplies(r, tagRule{"min", "0"}) {
+							okW = true
+						}
+					}
+				}
+				if tname == "AmmoConfig" && st.Field(i).Name() == "Scenarios" {
+					for _, r := range parseRules(tag) {
+						if r.name == "dive" {
+							okDive = true
+						}
+					}
+				}
+			}
+		}
+	}
+	c.Check(okW && okDive, "O13.4", "components/providers/scenario/config.ScenarioConfig.Weight:validated-non-negative", 0, fmt.Sprintf("ScenarioConfig.Weight validate min>=0: %v; AmmoConfig.Scenarios validate dive (element constraints are checked): %v", okW, okDive))
+	// O13.6: errors inside the decoders are propagated
+	c13DecodeErrors(c)
+	// O13.7: end-of-input tests
+	c13EOF(c)
+}
+
+var c13ErrExceptions = map[string]string{}
+
+func c13DecodeErrors(c *Ctx) {
+	P := c.P
+	n := 0
+	for _, rel := range []string{"components/providers/http/decoders", "components/providers/http/decoders/raw", "components/providers/http/decoders/uripost", "components/providers/http/util", "components/providers/grpc/grpcjson"} {
+		sp := P.SSAPkg(rel)
+		if sp == nil {
+			continue
+		}
+		for _, fn := range PkgFuncs(sp) {
+			if !IsProdFile(P.File(fn.Pos())) || fn.Parent() != nil {
+				continue
+			}
+			// only functions that themselves return an error
+			res := fn.Signature.Results()
+			if res.Len() == 0 || !types.Identical(res.At(res.Len()-1).Type(), errType) {
+				continue
+			}
+			idx := 0
+			EachInstr(fn, func(in ssa.Instruction) {
+				cl, ok := in.(*ssa.Call)
+				if !ok {
+					return
+				}
+				if _, isB := cl.Call.Value.(*ssa.Builtin); isB {
+					return
+				}
+				e, has := errResult(cl)
+				if !has {
+					return
+				}
+				if MatchCC(&cl.Call, sCtxErr) {
+					return // cancellation is observed, not decoded (C08)
+				}
+				idx++
+				key := fmt.Sprintf("%s:error-of-call-%d(%s)", fk(fn), idx, calleeName(&cl.Call))
+				if why, ok := c13ErrExceptions[key]; ok {
+					c.OK("O13.6", key, cl.Pos(), "named exception: "+why)
+					return
+				}
+				if e == nil {
+					// result discarded with _ : accept only for Seek-less helpers explicitly named
+					c.Bad("O13.6", key, cl.Pos(), "the error result is discarded")
+					return
+				}
+				n++
+				checkErrNotSwallowed(c, "O13.6", key, cl, e)
+			})
+		}
+	}
+	c.Floor("O13.6", "error-returning calls in the ammo decoders", n, 25)
+}
+
+func calleeName(cc *ssa.CallCommon) string {
+	if f := CalleeObj(cc); f != nil {
+		return f.Name()
+	}
+	return "dynamic"
+}
+
+// c13EOF: errors.Is(x, io.EOF) must not be applied to the result of a pandora helper that wraps read errors:
+// a truncated entry (wrapped EOF from a partial read) would be taken for the end of the input.
+func c13EOF(c *Ctx) {
+	P := c.P
+	n := 0
+	for _, rel := range []string{"components/providers/http/decoders", "components/providers/grpc/grpcjson", "core/provider"} {
+		sp := P.SSAPkg(rel)
+		if sp == nil {
+			continue
+		}
+		for _, fn := range PkgFuncs(sp) {
+			if !IsProdFile(P.File(fn.Pos())) {
+				continue
+			}
+			EachInstr(fn, func(in ssa.Instruction) {
+				cl, ok := in.(*ssa.Call)
+				if !ok || !MatchCC(&cl.Call, Spec{"errors", "", "Is"}, Spec{"golang.org/x/xerrors", "", "Is"}, Spec{"github.com/pkg/errors", "", "Is"}) {
+					return
+				}
+				// target io.EOF
+				isEOF := false
+				for _, r := range Roots(cl.Call.Args[1], false) {
+					if u, ok := r.(*ssa.UnOp); ok {
+						if g, ok := u.X.(*ssa.Global); ok && g.Name() == "EOF" && g.Pkg != nil && g.Pkg.Pkg.Path() == "io" {
+							isEOF = true
+						}
+					}
+				}
+				if !isEOF {
+					return
+				}
+				n++
+				bad := ""
+				for _, r := range Roots(cl.Call.Args[0], false) {
+					src, _ := CallOfValue(r)
+					if src == nil {
+						continue
+					}
+					sc := src.Call.StaticCallee()
+					if sc == nil || !IsPandora(PkgOf(sc)) {
+						continue
+					}
+					if wrapsErrors(sc) {
+						bad = fk(sc)
+					}
+				}
+				c.Check(bad == "", "O13.7", fk(fn)+":eof-test-on-"+calleeOfArg(cl.Call.Args[0]), cl.Pos(),
+					"errors.Is(err, io.EOF) is applied to the result of "+bad+", which wraps read errors with %w: an entry cut short (wrapped EOF of a partial read) would be treated as a clean end of input instead of being rejected; compare with == io.EOF")
+			})
+		}
+	}
+	c.Note("O13.7: %d errors.Is(.., io.EOF) tests inspected", n)
+	// positive control: readBlock does wrap (otherwise the rule could never fire)
+	rb := P.Func("components/providers/http/decoders", "uripostDecoder", "readBlock")
+	c.Check(rb != nil && wrapsErrors(rb), "O13.7", "components/providers/http/decoders:control-readBlock-wraps-read-errors", 0, "control: uripostDecoder.readBlock is recognised as a helper that wraps read errors (the rule has something to protect)")
+}
+
+func calleeOfArg(v ssa.Value) string {
+	for _, r := range Roots(v, false) {
+		if cl, _ := CallOfValue(r); cl != nil {
+			return calleeName(&cl.Call)
+		}
+	}
+	return "value"
+}
+
+// wrapsErrors: some return of fn carries an error built by a wrapping function (fmt.Errorf / xerrors.Errorf / errors.Wrap ...).
+func wrapsErrors(fn *ssa.Function) bool {
+	found := false
+	for _, b := range fn.Blocks {
+		r, ok := b.Instrs[len(b.Instrs)-1].(*ssa.Return)
+		if !ok || len(r.Results) == 0 {
+			continue
+		}
+		last := r.Results[len(r.Results)-1]
+		if !types.Identical(last.Type(), errType) {
+			continue
+		}
+		for _, rt := range Roots(last, false) {
+			if cl, _ := CallOfValue(rt); cl != nil && MatchCC(&cl.Call, ErrWrappers...) {
+				// wraps an existing error (has an error-typed argument, directly or in varargs)
+				found = true
+			}
+		}
+	}
+	return found
+}
+
+func c19Support(c *Ctx) {
+	P := c.P
+	// every Report call of the guns passes a *netsample.Sample
+	n := 0
+	for _, fn := range P.ProdFuncs() {
+		if !strings.Contains(PkgOf(fn), "/components/guns/") && PkgOf(fn) != Mod+"/core/engine" {
+			continue
+		}
+		EachInstr(fn, func(in ssa.Instruction) {
+			if !IsCall(in, sCoreAgg) {
+				return
+			}
+			n++
+			arg := CC(in).Args[0]
+			ok := false
+			if mi, isMI := arg.(*ssa.MakeInterface); isMI {
+				_, nm := NamedOf(mi.X.Type())
+				pk, _ := NamedOf(mi.X.Type())
+				ok = nm == "Sample" && pk == Mod+"/core/aggregator/netsample"
+			}
+			c.Check(ok, "O19.2", fk(fn)+":reports-a-netsample", in.Pos(), "core.Aggregator.Report receives a *netsample.Sample (the netsample wrapper asserts it)")
+		})
+	}
+	c.Floor("O19.2", "core.Aggregator.Report call sites in guns and engine", n, 3)
+	// O19.6: the http2 gun's fatal condition
+	do := P.Func("components/guns/http", "panicOnHTTP1Client", "Do")
+	if do == nil {
+		c.Anchor("O19.6", "components/guns/http.(*panicOnHTTP1Client).Do")
+	} else {
+		nP := 0
+		EachInstr(do, func(in ssa.Instruction) {
+			if !IsCall(in, Spec{"go.uber.org/zap", "Logger", "Panic"}) {
+				return
+			}
+			nP++
+			// either: err != nil && errors.As(err, &opError) && opError.Op == "remote error" && strings.Contains(err.Error(), "no application protocol")
+			// or: checkHTTP2(res.TLS) != nil
+			alert, remote, h2 := false, false, false
+			for _, bf := range BoolFactsAt(in) {
+				cl, _ := CallOfValue(bf.Subj)
+				if cl != nil && bf.Val && MatchCC(&cl.Call, Spec{"strings", "", "Contains"}) {
+					if s, ok := ConstString(cl.Call.Args[1]); ok && strings.Contains(s, "no application protocol") {
+						alert = true
+					}
+				}
+			}
+			for _, f := range CmpFactsAt(in) {
+				if f.Op == token.EQL {
+					for _, pr := range [][2]ssa.Value{{f.X, f.Y}, {f.Y, f.X}} {
+						if s, ok := ConstString(pr[1]); ok && s == "remote error" {
+							if fv, _ := FieldOf(pr[0]); fv != nil && fv.Name() == "Op" {
+								remote = true
+							}
+						}
+					}
+				}
+				if f.Op == token.NEQ && IsNilConst(f.Y) {
+					if cl, _ := CallOfValue(f.X); cl != nil && cl.Call.StaticCallee() != nil && cl.Call.StaticCallee().Name() == "checkHTTP2" {
+						h2 = true
+					}
+				}
+			}
+			c.Check((alert && remote) || h2, "O19.6", fmt.Sprintf("%s:fatal-only-without-http2#%d", fk(do), nP), in.Pos(),
+				fmt.Sprintf("the documented fatal condition 'target has no HTTP/2' must be established: TLS alert no_application_protocol from the peer (remote error: %v, message matched: %v) or a negotiated protocol other than h2 (%v); any other failed exchange is an ordinary failed sample", remote, alert, h2))
+		})
+		c.Check(nP == 2, "O19.6", fk(do)+":fatal-sites", do.Pos(), fmt.Sprintf("%d fatal sites in panicOnHTTP1Client.Do (want 2)", nP))
+	}
+	// O19.7: after a failed exchange the shot returns normally: no abort site on the error edge
+	for _, g := range []struct{ rel, recv, name, call string }{
+		{"components/guns/http", "BaseGun", "Shoot", "Do"},
+		{"components/guns/http_scenario", "ScenarioGun", "shootStep", "Do"},
+		{"components/guns/grpc", "Gun", "shoot", "InvokeRpc"},
+		{"components/guns/grpc/scenario", "Gun", "shootStep", "InvokeRpc"},
+	} {
+		fn := P.Func(g.rel, g.recv, g.name)
+		if fn == nil {
+			c.Anchor("O19.7", g.rel+"."+g.name)
+			continue
+		}
+		var call *ssa.Call
+		EachInstr(fn, func(in ssa.Instruction) {
+			if cl, ok := in.(*ssa.Call); ok {
+				if f := CalleeObj(&cl.Call); f != nil && f.Name() == g.call {
+					call = cl
+				}
+			}
+		})
+		if call == nil {
+			c.Anchor("O19.7", g.call+" in "+fk(fn))
+			continue
+		}
+		iv := PathQuery{Fn: fn, Start: call, Weight: func(in ssa.Instruction) (int, int) {
+			if _, isP := in.(*ssa.Panic); isP && !IsSelectPanicBlock(in.Block()) {
+				return 1, 1
+			}
+			if IsCall(in, Spec{"go.uber.org/zap", "Logger", "Panic"}, Spec{"go.uber.org/zap", "Logger", "Fatal"}, Spec{"os", "", "Exit"}) {
+				return 1, 1
+			}
+			return 0, 0
+		}}.Count()
+		c.Check(iv.Is(0, 0), "O19.7", fk(fn)+":no-abort-after-the-exchange", call.Pos(), fmt.Sprintf("panic / Fatal / Exit sites on any path after %s returned = %v (want [0,0]: whatever the target answered, the shot ends by returning)", g.call, iv))
+	}
+}
+
+// checkErrNotSwallowed: the error result e of call is either returned/forwarded directly, or tested
+// against nil with every return dominated by the non-nil edge returning a non-nil error (its own or
+// a replacement); an error edge that falls back into normal flow is reported unless e is the
+// end-of-input marker handled by name (== io.EOF / errors.Is(e, io.EOF) / sentinel comparisons).
+func checkErrNotSwallowed(c *Ctx, id, key string, call *ssa.Call, e ssa.Value) {
+	fn := call.Parent()
+	isE := func(v ssa.Value) bool { return DerivesAny(v, false, func(r ssa.Value) bool { return r == e }) }
+	tested := false
+	ok := true
+	detail := ""
+	for _, b := range fn.Blocks {
+		iff, isIf := b.Instrs[len(b.Instrs)-1].(*ssa.If)
+		if !isIf {
+			continue
+		}
+		f := CondFact(iff.Cond, true)
+		if f.Y == nil || !((IsNilConst(f.Y) && isE(f.X)) || (IsNilConst(f.X) && isE(f.Y))) {
+			continue
+		}
+		if f.Op != token.NEQ && f.Op != token.EQL {
+			continue
+		}
+		tested = true
+		errSucc := b.Succs[0]
+		if f.Op == token.EQL {
+			errSucc = b.Succs[1]
+		}
+		nRet := 0
+		for _, rb := range fn.Blocks {
+			if !EdgeDominates(b, errSucc, rb) {
+				continue
+			}
+			switch t := rb.Instrs[len(rb.Instrs)-1].(type) {
+			case *ssa.Return:
+				nRet++
+				if isNil, known := retErrIsNil(t); known && isNil {
+					// allowed only where the error was identified as the end-of-input marker / a handled sentinel
+					handled := false
+					for _, bf := range BoolFactsAt(t) {
+						if cl, _ := CallOfValue(bf.Subj); cl != nil && bf.Val && MatchCC(&cl.Call, Spec{"errors", "", "Is"}) && isE(cl.Call.Args[0]) {
+							handled = true
+						}
+					}
+					for _, cf := range CmpFactsAt(t) {
+						if cf.Op == token.EQL && !IsNilConst(cf.Y) && cf.Y != nil && (isE(cf.X) || isE(cf.Y)) {
+							handled = true
+						}
+					}
+					if !handled {
+						ok = false
+						detail = "a return dominated by the err != nil edge returns a nil error"
+					}
+				}
+			case *ssa.Panic:
+				nRet++
+			}
+		}
+		if nRet == 0 {
+			// rejoins normal flow: accept when the edge is further split by a sentinel comparison (== io.EOF ...)
+			split := false
+			for _, rb := range fn.Blocks {
+				if !EdgeDominates(b, errSucc, rb) {
+					continue
+				}
+				if i2, ok2 := rb.Instrs[len(rb.Instrs)-1].(*ssa.If); ok2 {
+					g := CondFact(i2.Cond, true)
+					if g.Y != nil && !IsNilConst(g.Y) && (isE(g.X) || isE(g.Y)) {
+						split = true
+					}
+					if cl, _ := CallOfValue(i2.Cond); cl != nil && MatchCC(&cl.Call, Spec{"errors", "", "Is"}) {
+						split = true
+					}
+				}
+			}
+			// ... or the error is what a later return carries (named result / err variable returned after a break)
+			carried := false
+			for _, rb := range fn.Blocks {
+				if r, isR := rb.Instrs[len(rb.Instrs)-1].(*ssa.Return); isR && len(r.Results) > 0 && BlockCanReach(errSucc, rb) || isR && rb == errSucc {
+					if isE(r.Results[len(r.Results)-1]) {
+						carried = true
+					}
+				}
+			}
+			if !split && !carried {
+				ok = false
+				detail = "the err != nil edge falls back into normal flow without returning"
+			}
+		}
+	}
+	if !tested {
+		direct := false
+		for _, u := range UsesOf(e, nil) {
+			switch u.Kind {
+			case "return", "send", "store":
+				direct = true
+			}
+			if strings.HasPrefix(u.Kind, "arg:") {
+				direct = true // handed to a helper (logging excluded below)
+			}
+		}
+		// comparison with a sentinel only (err == io.EOF): the other errors must still be returned
+		if !direct {
+			ok = false
+			detail = "the error is neither tested against nil nor returned"
+		}
+	}
+	c.Check(ok, id, key, call.Pos(), detail)
 }
